@@ -4,8 +4,8 @@
 //! `ObjectServer` of a real p2p connection pair: ops {at(p, I), remove::<I>(p), lookup} over paths
 //! {/, /a, /a/b, /c} x interfaces {I1, I2}. Quick: the FULL history tree (no state merging) to
 //! depth 4. Thorough: full tree to depth 5, then breadth-first search with merging by canonical
-//! observation until no new state appears. A second path universe {/, /a/b, /a/b/d, /a/bc}
-//! (unregistered intermediate node, three levels, prefix-named sibling) gets its own full tree to
+//! observation until no new state appears. A second path universe {/, /a, /a/b/d, /a/bc}
+//! (object with a grandchild below an unregistered intermediate node, three levels, prefix-named sibling) gets its own full tree to
 //! depth 5 (quick: one interface).
 //!
 //! The oracle is transition-local: the registry is probed before and after the last operation of
@@ -477,9 +477,9 @@ pub fn main(args: &Args) -> i32 {
     report.set("full_tree_depth", json!(depth));
     report.set("full_tree_histories", json!(tree_hist));
 
-    // Phase 1b: the second path universe {/, /a/b, /a/b/d, /a/bc}: an intermediate node that is
-    // never registered itself, three levels below the root, and two siblings of which one's name
-    // is a string prefix of the other's. Quick: one interface, depth 5; thorough: both, depth 5.
+    // Phase 1b: the second path universe {/, /a, /a/b/d, /a/bc}: an object whose grandchild hangs
+    // below an intermediate node (/a/b) that is never registered itself, three levels below the
+    // root, and a sibling (/a/bc) whose name has that intermediate node's name as a string prefix. Quick: one interface, depth 5; thorough: both, depth 5.
     {
         osrv::select_paths(1);
         let alpha1: Vec<Op> = if args.tier == vcommon::Tier::Quick {
